@@ -1,4 +1,6 @@
 import Driver.C04
+import Driver.C18O
+import Driver.C10L
 import Driver.C11_Ctx
 import Driver.C19S
 import Driver.C03Names
@@ -50,6 +52,10 @@ partial def loop (h : IO.FS.Stream) (out : IO.FS.Stream) (f : String → String)
   loop h out f
 
 def modes : List (String × (String → String)) := [
+  ("c18o", C18O.handle),
+  ("c16sweep", C16.handleSweep),
+  ("c10l", C10L.handle),
+  ("c04s", C04.handleSession),
   ("c11ctx", C11Ctx.handle),
   ("c20c", C20.handleC),
   ("c19s", C19S.handle),
